@@ -1,5 +1,5 @@
 (* C03: judge of the event-level tie; the shared machinery is Model/PoolCheck.v (one harness run serves C01, C03 and C08).
-   Result layout: [accepted; first rejected index; snapshots agree; v01; v03; v08; stale-placement kind; leaked at end; stranded tier kind]. *)
+   Result layout: [accepted; first rejected index; snapshots agree; v01; v03; v08; stale-placement kind; model workRemaining at the end; stranded tier kind]. *)
 From Coq Require Import ZArith List Bool.
 From DV Require Import Model.PoolModel Model.PoolCheck.
 Import ListNotations.
